@@ -57,7 +57,7 @@ impl DurationEstimator {
                 next_state = state + self.nstate;
                 duration.extend_from_slice(&curr_duration);
             } else if i + 1 == times.len() {
-                eprintln!("HTS_SStreamSet_create: The time of final label is not specified.");
+                crate::warn(format_args!("HTS_SStreamSet_create: The time of final label is not specified."));
                 duration.extend(Self::estimate_duration(
                     &self.parameters[next_state..state + self.nstate],
                     0.0,
